@@ -146,6 +146,8 @@ def check_e2e(ck: Check, strs):
     cur.execute("create table c08_t (id int, v varchar, w varchar)")
     cur.execute("set v1 = 'var'")
     sel = [""] + ALPHA + [a + b for a in NASTY for b in NASTY] + [s for s in strs if len(s) > 2][: 150 if ck.tier == "quick" else 5000]
+    # values that look like references to session variables (v1 is defined on this connection): data, never references
+    sel = ["$v1", "US$5", "a$v1 b", "$V1% off", "$nope", "$1", "'$v1'", "x$$v1"] + sel
     sel = [s for s in sel if "\x00" not in s]
     rid = 0
     for s in sel:
@@ -190,13 +192,24 @@ def check_e2e(ck: Check, strs):
             except Exception as e:  # noqa: BLE001
                 report(f"binding {v!r} raised {type(e).__name__}: {str(e)[:200]}", {"params": [repr(v)]})
     # executemany = one execute per parameter set, in order
-    rows = [(1000 + i, s, "m") for i, s in enumerate(sel[:40])]
+    rows = [(1000 + i, s, "m" if i % 2 else "$v1") for i, s in enumerate(sel[:40])]
     cur.execute("create table c08_m (id int, v varchar, w varchar)")        # its own table: in the thorough tier c08_t already holds ids >= 1000
     cur.executemany("insert into c08_m values (%s, %s, %s)", rows)
     r = cur.execute("select id, v, w from c08_m order by id").fetchall()
     ck.cov["evaluations"] += 1
     if r != rows:
         report(f"executemany of {len(rows)} rows stored {len(r)} rows / different values", {"rows": repr(rows[:5]), "observed": repr(r[:5])})
+    # ... with dict parameter sets, a single set, and INSERT spelled the other way round
+    cur.execute("create table c08_m2 (id int, v varchar)")
+    try:
+        cur.executemany("INSERT INTO c08_m2 (id, v) VALUES (%(i)s, %(v)s)", [{"i": i, "v": s} for i, s in enumerate(sel[:12])])
+        cur.executemany("insert into c08_m2 values (%s, %s)", [(100, "$v1")])
+        r2 = cur.execute("select id, v from c08_m2 order by id").fetchall()
+    except Exception as e:  # noqa: BLE001
+        r2 = f"{type(e).__name__}: {str(e)[:120]}"
+    ck.cov["evaluations"] += 1
+    if r2 != [(i, s) for i, s in enumerate(sel[:12])] + [(100, "$v1")]:
+        report(f"executemany with dict parameter sets / a single set stored {str(r2)[:200]}", {"rows": repr(sel[:12]), "observed": repr(r2)[:400]})
     fs.duck_conn.close()
     # paramstyle is the one configured when the connection was made - also for cursors opened later
     old = snowflake.connector.paramstyle
